@@ -549,6 +549,7 @@ Proof.
   destruct (params tp) as [|p0 pr] eqn:Eps; [destruct (nonempty a); auto with ood|].
   destruct (py_call_shape pp a) as [[npos kws]|]; auto with ood.
   destruct (negb (is_call a)); auto with ood.
+  destruct (str_in "*" kws || str_in "**" kws); auto with ood.
   destruct (List.length (p0 :: pr) <? npos) eqn:El; auto with ood.
   destruct (existsb _ kws); auto with ood.
   apply Nat.ltb_ge in El.
